@@ -240,3 +240,23 @@ PROPS['C04'].rule += ' Real-thread sub-checks: ticket uniqueness (add), countdow
 PROPS['C01'].assumptions.append('ThreadSanitizer is not applied to the sync model (plain volatile store + full fence is outside its happens-before vocabulary and reports on the unchanged tree); on x86-64 a missing release fence in sync has no observable outcome')
 PROPS['C04'].assumptions.append('litmus outcomes "never observed" are evidence, not proof; TSan not applied to the sync model')
 ENGINES.append(dict(name='rthreads', path='engines/rthreads', serves_properties=['C01', 'C04'], kind_free_text='generated stress programs on real threads; ThreadSanitizer (gcc) as happens-before oracle, closed-form outcome oracles'))
+
+# ---- C20 ---------------------------------------------------------------------------------------
+harness('census', 'engines/fault/census.cpp', 'gcc-asan', libs='-lrapidcheck -lcrypto')
+reg(Prop('C20', 'exploration', [
+    Sub('rand', 'census', shards=(12, 16), cases=(60, 1500), maxsize=(100, 100), env={'VERIF_SUB': 'rand'}, timeout=(900, 3600)),
+    Sub('cycles', 'census', shards=(4, 8), cases=(1, 1), env={'VERIF_SUB': 'cycles'}, timeout=(900, 3600)),
+], rule='lifecycle histories: sequences of up to ~14 self-contained episodes over 17 object kinds (trees, list+hash table, INI incl. missing file, hashes, errors, directory iterator incl. missing path, TCP pairs incl. refused connect / timed-out accept / timed-out receive / I/O after close, '
+        'UDP incl. receive_from and timed-out receive, socket addresses incl. rejected strings, semaphores with 1-3 handles and owner/non-owner free orders, shm with second handles of equal/smaller/larger size argument and read-only mode, shm buffers incl. failing open on a too-small segment, '
+        'joinable/detached threads with TLS keys and values, foreign threads using p_uthread_current, lock objects, library loader incl. missing path and non-library file, libsys shutdown+init), each freeing everything it obtained. '
+        'cycles sub-run: 120 (thorough 600) identical create/free cycles per kind x 6 variants. Oracle: after every episode library allocations (tracking allocator), descriptor count and bytes of /dev/shm-backed mappings equal the values before the history; at the end none of the history\'s IPC names exists (names computed independently with SHA-1). '
+        'Non-trivial = history with >= 1 failing call, >= 1 IPC object opened through handles with different size arguments, and >= 3 module kinds; distinct = distinct history text.',
+    assumptions=['glibc-internal allocations and the loader\'s own mappings are invisible to the census; TLS slot consumption is not part of it (documented: the native key is kept)',
+                 'detached threads are awaited (bounded) before the census', 'double close of a descriptor is observed only through the descriptor count (a close of a foreign descriptor would show as a deficit)'],
+    corpus_harness='census', design_ref='4/C20'))
+ENGINES[-2]['serves_properties'].append('C20') if ENGINES[-2]['name'] == 'fault' else None
+for _e in ENGINES:
+    if _e['name'] == 'fault' and 'C20' not in _e['serves_properties']: _e['serves_properties'].append('C20')
+LEVEL_TEXT['C20'] = 'Generated create/use/free histories across all modules with a resource census (allocations, descriptors, shared mappings, IPC names) after every episode; plus long identical-cycle runs per object kind.'
+LEVEL_NOTE['C20'] = 'Trusted: tracking allocator via p_mem_set_vtable, /proc/self/fd and /proc/self/maps census, independent SHA-1 computation of IPC file names.'
+TECHNIQUE['C20'] = 'property-based testing (rapidcheck) of lifecycle histories with a resource-census invariant + repeated-cycle amplification'
